@@ -192,6 +192,18 @@ void c20_sid_copy_id_credential(sslSessionId_t *dst, const sslSessionId_t *src)
     dst->cipherId = src->cipherId;
 }
 
+/* The trust anchor list of a key set (shared by every session created from it): lets the target hand the SAME list that
+   the handshakes use to matrixValidateCerts() from several threads. */
+psX509Cert_t *c20_keys_cacerts(sslKeys_t *keys)
+{
+#if defined(USE_IDENTITY_CERTIFICATES) || defined(USE_CA_CERTIFICATES)
+    return keys ? keys->CAcerts : NULL;
+#else
+    (void) keys;
+    return NULL;
+#endif
+}
+
 int c20_ecflag(int which)
 {
     return which ? SSL_OPT_SECP384R1 : SSL_OPT_SECP256R1;
